@@ -1274,6 +1274,9 @@ func areaSweeper(r *Rng, n int, dir string) (*AreaOut, error) {
 	if err := sweeperAfterFailedPass(out); err != nil {
 		return nil, err
 	}
+	if err := sweeperForeignHeaderBytes(out); err != nil {
+		return nil, err
+	}
 	out.Cases = len(cases)
 	out.Distinct = len(nontriv)
 	for i := 0; i < 3 && i < len(cases); i++ {
